@@ -161,6 +161,7 @@ type RunResult struct {
 }
 
 func runRules(p *Prog, ids []string) *RunResult {
+	theProg = p
 	res := &RunResult{RuleCounts: map[string]int{}}
 	for _, id := range ids {
 		var args []string
